@@ -255,6 +255,8 @@ def generate_grammar(bnf_grammar: str, token_namespace) -> Grammar:
         # oldlen = len(dfas)
         _simplify_dfas(dfas)
         # newlen = len(dfas)
+        if nfa_a.from_rule in rule_to_dfas:
+            raise ValueError("rule %s is defined twice" % nfa_a.from_rule)
         rule_to_dfas[nfa_a.from_rule] = dfas
         # print(nfa_a.from_rule, oldlen, newlen)
 
